@@ -102,6 +102,13 @@ def install():
     import liquid.extra  # noqa: F401
     mods = [m for n, m in sorted(sys.modules.items()) if m is not None and (n == "liquid" or n.startswith("liquid."))]
     mods.append(dparser)
+    try:
+        # the number / date formatting filters hand 'now' to babel as None, and babel.dates then reads the
+        # clock itself (datetime.datetime.now(UTC) in babel.dates._get_datetime)
+        import babel.dates as bdates
+        mods.append(bdates)
+    except ImportError:
+        pass
     # whatever import style a module uses (``import datetime``, ``from datetime import
     # datetime``), every module-level reference to the real module/classes is redirected
     for mod in mods:
